@@ -6,6 +6,8 @@
 import BibVerif.Pipeline
 import BibVerif.Grammar
 import BibVerif.Lemmas.LexPieces
+import BibVerif.Lemmas.PrintParseKey
+import BibVerif.Lemmas.KeyOK
 import BibVerif.Lemmas.StrBlocks
 namespace Bib.PrintParse
 open Bib Bib.Writer Bib.Enclosing Bib.Pipeline
@@ -26,6 +28,14 @@ structure PrintOK (P : PyChars) : Prop where
   rbWord : P.isWord '}' = false
   /-- `\w` does not match a newline (a `@` in a free-text comment cannot look past the end of its line) -/
   nlWord : P.isWord '\n' = false
+  /-- `\w` matches neither `,` nor `=` (a `@` inside a key cannot look past the delimiter after the key) -/
+  cmWord : P.isWord ',' = false
+  eqWord : P.isWord '=' = false
+  /-- `\w` does not match `"` (used only at the grammar level) -/
+  qWord : P.isWord '"' = false
+  /-- a white-space character is a newline, or an ordinary text character (no delimiter, `@` or
+  backslash) that `\w` does not match (used only at the grammar level: `strip` versus tokens) -/
+  space : ∀ c, P.isSpace c = true → c = '\n' ∨ (simpleChar c = true ∧ P.isWord c = false)
   spSpace : P.isSpace ' ' = true
   tabSpace : P.isSpace '\t' = true
   nlSpace : P.isSpace '\n' = true
@@ -72,7 +82,7 @@ def noStart (P : PyChars) : Str → Bool
   | c :: r => (c != '@' || (atMatch P r).isNone) && noStart P r
 
 structure FieldOK (P : PyChars) (f : Field) : Prop where
-  keySimple : SimpleText f.key
+  keyOK : KeyOK P f.key
   keyStrip : strip P f.key = f.key
   value : ∃ v, f.value = .str v ∧ EncVal P v
 
@@ -83,7 +93,7 @@ structure EntryOK (P : PyChars) (e : Entry) : Prop where
   tyNotComment : startsWith "comment".toList e.ty = false
   tyNotPreamble : startsWith "preamble".toList e.ty = false
   tyNotString : startsWith "string".toList e.ty = false
-  keySimple : SimpleText e.key
+  keyOK : KeyOK P e.key
   keyStrip : strip P e.key = e.key
   fields : ∀ f ∈ e.fields, FieldOK P f
   fieldKeys : (e.fields.map (·.key)).Nodup
@@ -93,7 +103,7 @@ structure EntryOK (P : PyChars) (e : Entry) : Prop where
 
 def BlockOK (P : PyChars) : Block → Prop
   | .live (.entry e) => EntryOK P e
-  | .live (.string k v _ _ _) => SimpleText k ∧ strip P k = k ∧ ∃ s, v = .str s ∧ EncBal P s
+  | .live (.string k v _ _ _) => KeyOK P k ∧ strip P k = k ∧ ∃ s, v = .str s ∧ EncBal P s
   | .live (.preamble v _ _ _) => CleanVal P v
   | .live (.expl c _ _ _) => CleanVal P c ∧ strip P c = c
   | .live (.impl c _ _ _) => c ≠ [] ∧ strip P c = c ∧ noStart P c = true
@@ -240,7 +250,7 @@ noncomputable def fvalToks (P : PyChars) (v : Str) : List Tok := SPt :: evtOf P 
 noncomputable def fieldSrcs (P : PyChars) (F : BibtexFormat) (col : Nat) : List Field → List FieldSrc
   | [] => []
   | f :: fs =>
-    ⟨[NLt, .text (lineHead F col f.key)],
+    ⟨NLt :: lexFrom P false (lineHead F col f.key),
       fvalToks P (strOf f.value) ++ (if fs.isEmpty && !F.trailingComma then [NLt] else [])⟩ ::
       fieldSrcs P F col fs
 
@@ -249,9 +259,9 @@ def trailingOf (F : BibtexFormat) (fs : List Field) : Option (List Tok) :=
 
 noncomputable def srcOf (P : PyChars) (F : BibtexFormat) (col : Nat) : Block → BlockSrc
   | .live (.entry e) =>
-    .entry ('@' :: e.ty) (if e.key.isEmpty then [] else [.text e.key]) (fieldSrcs P F col e.fields)
+    .entry ('@' :: e.ty) (lexFrom P false e.key) (fieldSrcs P F col e.fields)
       (trailingOf F e.fields)
-  | .live (.string k v _ _ _) => .string "@string".toList [.text (k ++ [' '])] (valToks P (strOf v))
+  | .live (.string k v _ _ _) => .string "@string".toList (lexFrom P false (k ++ [' '])) (valToks P (strOf v))
   | .live (.preamble v _ _ _) => .preamble "@preamble".toList (vtOf P v)
   | .live (.expl c _ _ _) => .comment "@comment".toList (vtOf P c)
   | _ => .comment [] []
